@@ -26,7 +26,11 @@ def nested_family(p, n, rnd):
              g.Seq(g.Rep(g.Optional(g.Seq(g.Rep(g.Optional(g.Arg("X"))), g.Arg("Y"))))), g.Seq(g.Optional(g.Rep(g.Opt("-e"))), g.Arg("X")),
              g.Seq(g.Rep(g.Alt(g.Opt("-a"), g.Arg("X")))), g.Seq(g.Rep(g.Seq(g.End()))), g.Seq(g.Rep(g.Seq(g.Opt("-e"), g.Optional(g.Arg("X")), g.End()))),
              g.Seq(g.Rep(g.Rep(g.Rep(g.Optional(g.Opt("-o")))))), g.Seq(g.Rep(g.Optional(g.Alt(g.End(), g.Arg("X"))))),
-             g.Seq(g.Rep(g.Optional(g.Rep(g.Optional(g.Rep(g.Optional(g.Grp(["-a", "-b", "-o", "-e"], all_=True))))))))]
+             g.Seq(g.Rep(g.Optional(g.Rep(g.Optional(g.Rep(g.Optional(g.Grp(["-a", "-b", "-o", "-e"], all_=True)))))))),
+             # env-backed options inside nested repetitions: exponential backtracking before fix 8c7f6d6
+             g.Seq(g.Rep(g.Alt(g.Opt("-b"), g.Rep(g.Alt(g.Arg("Y"), g.Opt("-b"))))), g.Rep(g.Alt(g.Rep(g.Opt("-o")), g.Rep(g.Opt("-e"))))),
+             g.Seq(g.Rep(g.Seq(g.Seq(g.Alt(g.Arg("X"), g.Grp(["-a", "-b", "-o", "-e"], all_=True)), g.Alt(g.Grp(["-e", "-a"]), g.Grp(["-a", "-b", "-o", "-e"], all_=True))),
+                               g.Alt(g.Grp(["-a", "-b"]), g.Rep(g.Opt("-o"))))), g.Opt("-a"))]
     for e in fixed:
         out.append({"ast": e, "str": g.render(p, e)})
         seen.add(out[-1]["str"])
@@ -98,7 +102,7 @@ def run(tier, wd):
     fam = nested_family(p, 150 if q else 1500, rnd)
     envsets = [list(c) for n in range(5) for c in itertools.combinations(keys, n)]
     for s in fam:
-        lines = [[], ["x"], ["--"], ["-z"], ["x", "y", "x", "y", "x", "y", "x", "y"], ["-a", "-b", "-ab", "-ba", "-a"], ["--", "--", "-a"], ["-ov", "-o", "v", "x"]]
+        lines = [[], ["x"], ["--"], ["-z"], ["x", "y", "x", "y", "x", "y", "x", "y"], ["x", "y"] * 6, ["-a", "-b", "-ab", "-ba", "-a"], ["--", "--", "-a"], ["-ov", "-o", "v", "x"]]
         for _ in range(4 if q else 8):
             items = g.sample_items(p, s["ast"], rnd)
             if rnd.random() < 0.5:
